@@ -215,3 +215,67 @@ def manager_contract(ctx, rule='A5a'):
     ctx.ob(rule, fkey(fn, rule, 'marks-to-activeness'), ok, fn.where,
            'activeness is `vector != -1`, taken before the -1 marks are replaced by 0', src[:160])
     return n + 1
+
+
+# ---------------------------------------------------------------------- A21w: imputers respect the pattern width
+def check_imputer_vector_width(ctx, rule='A21w'):
+    """Eager imputers get the vector at the encoder's full width, while the design-vector table of an existence
+    pattern (`_get_design_vectors(existence)`, the per-existence look-up maps) may have fewer columns.  In every
+    `impute` the raw vector is therefore used only for `len()`, scalar element reads, being returned, or after
+    being cut to the table width (`...[:<table>.shape[1]]`); anything else - arithmetic on the whole vector, a
+    tuple key built from it, handing it to a helper - mixes the two widths (siblings are cross-checked: the
+    imputers that are right all follow this discipline)."""
+    prog = ctx.prog
+    base = prog.cls('adsg_core.optimization.assign_enc.encoding:EagerImputer')
+    n = 0
+    for cls in prog.subclasses(base):
+        fn = cls.methods.get('impute')
+        if fn is None or len(fn.params) < 2:
+            continue
+        vec = fn.params[1]
+        parents = {}
+        for p in ast.walk(fn.node):
+            for ch in ast.iter_child_nodes(p):
+                parents[id(ch)] = p
+        # names holding a width (assigned from an expression mentioning .shape[1])
+        widths = {norm(s.targets[0]) for s in walk_fn(fn) if isinstance(s, ast.Assign) and '.shape[1]' in norm(s.value)}
+
+        def is_width_slice(sub):
+            return isinstance(sub, ast.Subscript) and isinstance(sub.slice, ast.Slice) and sub.slice.lower is None and \
+                sub.slice.upper is not None and ('.shape[1]' in norm(sub.slice.upper) or norm(sub.slice.upper) in widths)
+        # line from which the name is rebound to its cut form
+        clean_from = None
+        for s in walk_fn(fn):
+            if isinstance(s, ast.Assign) and norm(s.targets[0]) == vec and is_width_slice(s.value) and \
+                    any(isinstance(x, ast.Name) and x.id == vec for x in ast.walk(s.value.value)):
+                clean_from = s.lineno if clean_from is None else min(clean_from, s.lineno)
+        bad = []
+        for x in ast.walk(fn.node):
+            if not (isinstance(x, ast.Name) and x.id == vec and isinstance(x.ctx, ast.Load)):
+                continue
+            if clean_from is not None and x.lineno > clean_from:
+                continue
+            p = parents.get(id(x))
+            # wrappers np.array(v) / list(v) / tuple(v) directly under a width slice
+            q = p
+            node = x
+            while isinstance(q, ast.Call) and norm(q.func).split('.')[-1] in ('array', 'list', 'asarray') and node in q.args:
+                node, q = q, parents.get(id(q))
+            if is_width_slice(q) and q.value is node:
+                continue
+            if isinstance(p, ast.Call) and norm(p.func) == 'len':
+                continue
+            if isinstance(p, ast.Subscript) and p.value is x and not isinstance(p.slice, ast.Slice):
+                continue
+            if isinstance(p, (ast.Return, ast.Tuple)) and (isinstance(p, ast.Return) or
+                                                          isinstance(parents.get(id(p)), ast.Return)):
+                continue
+            bad.append(x)
+        n += 1
+        ctx.touch(fn)
+        ctx.ob(rule, fkey(fn, rule, 'raw-vector-only-cut-to-pattern-width'), not bad, fn.where,
+               f'{cls.name}.impute uses the full-width vector only through len(), element reads, the return value or '
+               f'after cutting it to the width of the existence pattern\'s table',
+               'ok' if not bad else f'L{bad[0].lineno}: `{short(parents.get(id(bad[0])), 70)}` uses the whole vector at '
+               f'the encoder\'s width against a table that may be narrower')
+    return n
